@@ -1,3 +1,5 @@
+//go:build !no_c10
+
 package props
 
 import (
